@@ -110,6 +110,11 @@ pub fn replay(id: &str, doc: &Value) -> i32 {
             1
         }
         "C18" if !case["slow_provider_ms"].is_null() => c18::replay_slow(case),
+        "C18" if !case["long_history_step"].is_null() => {
+            println!("{}", serde_json::to_string_pretty(case).unwrap_or_default());
+            println!("re-run: ./check C18 quick (the history is repeated from a fresh process; the step number identifies where the outcome changed)");
+            1
+        }
         "C13" => c13::replay(case),
         "C14" => c14::replay(case),
         "C15" if !case["c15"].is_null() => c15::replay(case),
